@@ -313,11 +313,13 @@ def leanchecker(modules, timeout=3000):
     return rc == 0, out[-2000:], dt
 
 
-def tie_a():
-    """Tie A: translate the loop-free integer code of the *current* source to Lean and check the generated equivalence
-    theorems. Returns ({theorem: axioms | None}, translator status, log tail)."""
+MV_THEOREMS = {'conf_consts_eq', 'conf_up_eq', 'conf_homo_eq', 'conf_down_eq', 'g3c_translation_rotor_eq', 'g3c_dilation_rotor_eq',
+               'g3c_apply_rotor_eq', 'g3c_rotor_between_planes_eq', 'cga_call_eq', 'cga_translation_eq', 'cga_round_eq',
+               'classify_translate_eq', 'classify_blade_mv_eq', 'classify_tests_eq'}
+
+
+def _tie_a_one(script):
     import re
-    script = VERIF / 'translate' / 'py2lean.py'
     p = subprocess.run([sys.executable if sys.executable else 'python3', str(script), '--repo', str(REPO), '--status'],
                        capture_output=True, text=True, timeout=300)
     if p.returncode != 0:
@@ -325,7 +327,7 @@ def tie_a():
     st = json.loads(p.stderr)
     d = LEAN / '.lake' / 'audit'
     d.mkdir(parents=True, exist_ok=True)
-    f = d / f"tiea_{os.getpid()}.lean"
+    f = d / f"tiea_{script.stem}_{os.getpid()}.lean"
     f.write_text(p.stdout)
     try:
         rc, out, dt = run(['lake', 'env', 'lean', str(f)], cwd=LEAN, timeout=900)
@@ -340,3 +342,28 @@ def tie_a():
     for m in re.finditer(r"'([^']+)' does not depend on any axioms", out):
         res[m.group(1)] = []
     return res, st, out[-1500:]
+
+
+def tie_a(names=None):
+    """Tie A: translate code of the *current* source to Lean and check the generated equivalence theorems:
+    `translate/py2lean.py` for the loop-free integer code, `translate/mv2lean.py` for the straight-line multivector
+    expressions of the conformal layers. Returns ({theorem: axioms | None}, translator status, log tail)."""
+    names = set(names or [])
+    scripts = []
+    if not names or names - MV_THEOREMS:
+        scripts.append(VERIF / 'translate' / 'py2lean.py')
+    if not names or names & MV_THEOREMS:
+        scripts.append(VERIF / 'translate' / 'mv2lean.py')
+    res, st, log = {}, dict(status={}, theorems={}), ''
+    for sc in scripts:
+        # what the generated file imports must be compiled first (no-op when it already is)
+        lake_build(['Proofs.Conf2', 'Proofs.CgaObj', 'Proofs.Classify'] if sc.stem == 'mv2lean' else ['Model', 'Proofs.Rev', 'Proofs.Invol'])
+        r, s_, l = _tie_a_one(sc)
+        res.update(r)
+        if 'error' in s_:
+            st.setdefault('error', '')
+            st['error'] += s_['error']
+        st['status'].update(s_.get('status', {}))
+        st['theorems'].update(s_.get('theorems', {}))
+        log += l
+    return res, st, log[-3000:]
